@@ -345,7 +345,7 @@ pub fn par_shards<L: Send + 'static>(
     let done_workers = AtomicUsize::new(0);
     let results: Mutex<Vec<L>> = Mutex::new(Vec::new());
     let panicked: Mutex<Vec<String>> = Mutex::new(Vec::new());
-    let threads = threads.min(MAX_THREADS - 1).max(1);
+    let threads = threads.min(MAX_THREADS - 1).min(nshards.max(1) as usize).max(1);
     let hang: Mutex<Option<HangInfo>> = Mutex::new(None);
     std::thread::scope(|sc| {
         let mut handles = Vec::new();
@@ -388,11 +388,14 @@ pub fn par_shards<L: Send + 'static>(
         }
         // watchdog (this thread)
         let mut last = vec![(0u64, Instant::now()); threads];
+        let mut nap = Duration::from_micros(50);
         loop {
             if done_workers.load(Ordering::SeqCst) == threads {
                 break;
             }
-            std::thread::sleep(Duration::from_millis(50));
+            // short naps first (most sub-spaces finish in well under a millisecond)
+            std::thread::sleep(nap);
+            nap = (nap * 2).min(Duration::from_millis(50));
             for t in 0..threads {
                 let slot = &SLOTS[t];
                 let tick = slot.tick.load(Ordering::Relaxed);
